@@ -306,6 +306,17 @@ def run_case(case):
             r.violation(f'{sig}:ppf-bisect-raises:{type(e).__name__}', f'{tag}: bisect percent_point raised {e}', case=case)
         r.hit('kde-bisect')
 
+    # ---- the documented shortcuts pdf / cdf / ppf are the same functions as the long names ------------------
+    for short, long_, arg in (('pdf', 'probability_density', fin), ('cdf', 'cumulative_distribution', fin), ('ppf', 'percent_point', Q33)):
+        try:
+            a1 = np.asarray(getattr(model, short)(arg.copy()), float)
+            a2 = np.asarray(getattr(model, long_)(arg.copy()), float)
+        except Exception:
+            continue          # failures of the long names are reported above
+        r.tr(2)
+        if not np.array_equal(a1, a2, equal_nan=True):
+            r.violation(f'{sig}:shortcut:{short}', f'{tag}: {short}(x) differs from {long_}(x)', case=case)
+
     # ---- delegation identity (scipy-backed families, also behind the wrapper) ----------------------------
     params = dict(model.to_dict())
     tname = params.pop('type').rsplit('.', 1)[1]
